@@ -2228,6 +2228,13 @@ class _FoldLiterals(ast.NodeTransformer):
                 ast.fix_missing_locations(loop)
                 self.count += 1
                 return [init, loop]
+        if isinstance(node.iter, (ast.Tuple, ast.List)) and len(node.iter.elts) == 1 and not isinstance(node.iter.elts[0], ast.Starred) and \
+                isinstance(node.target, ast.Name) and not any(isinstance(x, (ast.Break, ast.Continue)) for b in node.body for x in ast.walk(b)):
+            # for x in (E,): BODY   ->   x = E; BODY
+            self.count += 1
+            asg = ast.copy_location(ast.Assign(targets=[ast.Name(id=node.target.id, ctx=ast.Store())], value=node.iter.elts[0]), node)
+            ast.fix_missing_locations(asg)
+            return [asg] + list(node.body)
         els = self._iter_elems(node.iter)
         if els is None or not els:
             return node
@@ -2844,6 +2851,11 @@ def _tail_duplicate_block(block, fnode, fn_stored):
             if len(vals) >= 2:
                 sel.add(v)
             elif noneness == {"none", "object"} and isinstance(tail[0], ast.If) and _is_none_test(tail[0].test, v):
+                sel.add(v)
+            elif isinstance(tail[0], ast.For) and isinstance(tail[0].iter, ast.Name) and tail[0].iter.id == v and \
+                    all(b and _last_assign(b, v) is b[-1] for b in live) and \
+                    sum(1 for x in ast.walk(fnode) if isinstance(x, ast.Name) and x.id == v and isinstance(x.ctx, ast.Load)) == 1:
+                # what the loop that follows ranges over is chosen by the branches (and used for nothing else)
                 sel.add(v)
         if not sel or len(tail) > 30 or any(isinstance(x, _FUNC + (ast.ClassDef,)) for t in tail for x in ast.walk(t)):
             continue
